@@ -140,13 +140,13 @@ Qed.
 
 (* MAIN: for an arbitrary store, every file a successful restore wrote is an authentic file of the
    snapshot name that was asked for, with exactly the recorded parts *)
-Theorem restore_authentic : forall fc m st target out,
+Theorem restore_listed_authentic : forall fc m listing st target out,
   f_rehash_chunk fc = true -> f_verify_snapshot fc = true ->
-  restore fc m st target = Ok out ->
+  restore_listed fc m listing st target = Ok out ->
   forall x, In x out -> exists a, authentic m target = Some a /\ In x a.
 Proof.
-  intros fc m st target out Hr Hv H x Hx. unfold restore in H.
-  set (cands := filter (fun nt => term_eqb (fst nt) target) (snapshot_locs st)) in H.
+  intros fc m listing st target out Hr Hv H x Hx. unfold restore_listed in H.
+  set (cands := filter (fun nt => term_eqb (fst nt) target) listing) in H.
   destruct (mapM _ cands) as [bodies|e] eqn:ML; cbn [bind] in H; [|discriminate H].
   destruct (mapM (restore_body fc m st) (somes bodies)) as [outs|e] eqn:MR; cbn [bind] in H; [|discriminate H].
   injection H as <-. apply in_concat in Hx. destruct Hx as [o [Ho Hxo]].
@@ -156,6 +156,31 @@ Proof.
   apply load_one_sound in Lb; [|exact Hv]. destruct Lb as [c [Hc [_ D]]].
   apply restore_body_sound in Rb; [|exact Hr].
   exists o; split; [|exact Hxo]. subst target. cbn [authentic]. rewrite D. exact Rb.
+Qed.
+
+Theorem restore_authentic : forall fc m st target out,
+  f_rehash_chunk fc = true -> f_verify_snapshot fc = true ->
+  restore fc m st target = Ok out ->
+  forall x, In x out -> exists a, authentic m target = Some a /\ In x a.
+Proof. intros fc m st target out; apply restore_listed_authentic. Qed.
+
+(* a listed snapshot that is gone when it is downloaded fails the restore *)
+Lemma restore_listed_vanished_fails : forall fc m listing st name tag,
+  In (name, tag) listing -> lookup st (LSnap name tag) = None ->
+  (match m with Some k => tag = Mac (k_mac k) name | None => True end) ->
+  exists e, restore_listed fc m listing st name = Err e.
+Proof.
+  intros fc m listing st name tag Hin L Ht. unfold restore_listed.
+  set (f := fun nt : term * term => load_one fc m st (fst nt) (snd nt)).
+  assert (Hl : f (name, tag) = Err Missing).
+  { unfold f, load_one. cbn [fst snd]. rewrite L.
+    destruct m as [k|]; [subst tag; rewrite term_eqb_refl, andb_false_r|]; reflexivity. }
+  assert (Hc : In (name, tag) (filter (fun nt => term_eqb (fst nt) name) listing)).
+  { apply filter_In; split; [exact Hin | cbn [fst]; apply term_eqb_refl]. }
+  destruct (mapM f (filter (fun nt => term_eqb (fst nt) name) listing)) as [bodies|e] eqn:M; [|exists e; reflexivity].
+  exfalso. apply mapM_ok in M. clear -M Hc Hl.
+  induction M as [|x y l ys Hx _ IH]; [contradiction|].
+  destruct Hc as [->|Hc]; [rewrite Hl in Hx; discriminate Hx | exact (IH Hc)].
 Qed.
 
 (* the outcome does not depend on the store: two successful restores of one name wrote the same files *)
